@@ -686,4 +686,101 @@ Section ComponentsOk.
     - intros z [Hz | []]. subst. exact Hx.
     - unfold g_nodes, get_all_node_names. rewrite map_length. cbn [length]. lia.
   Qed.
+
+  (* ------------------------------------------------------------------ *)
+  (* plain_bfs terminates within the model's fuel when successors / predecessors stay
+     inside the node list (no outcome monad inside: nothing can panic)                    *)
+  Definition wstep_closed (g : gstate) : Prop :=
+    forall u v, wstep g u v -> In v (g_nodes g).
+
+  Lemma plain_level_total : forall (g : gstate) lvl seen ret next s' r' n',
+    wstep_closed g ->
+    plain_level teqb g lvl seen ret next = (s', r', n') ->
+    incl lvl (g_nodes g) -> NoDup seen -> incl seen (g_nodes g) -> incl next (g_nodes g) ->
+    NoDup s' /\ incl s' (g_nodes g) /\ incl n' (g_nodes g) /\
+    length seen <= length s' /\ (length s' = length seen -> n' = next).
+  Proof.
+    intros g. induction lvl as [ | v t IH ]; intros seen ret next s' r' n' Hcl H Hl Hnd Hs Hn.
+    - cbn in H. inversion H; subst. repeat split; auto.
+    - assert (Hv : In v (g_nodes g)) by (apply Hl; cbn; tauto).
+      assert (Ht : incl t (g_nodes g)) by (intros z Hz; apply Hl; cbn; tauto).
+      cbn [plain_level] in H. destruct (mem_name teqb v seen) eqn:Hm.
+      + apply (IH _ _ _ _ _ _ Hcl H Ht Hnd Hs Hn).
+      + apply mem_name_false in Hm.
+        destruct (IH _ _ _ _ _ _ Hcl H Ht) as [H2 [H3 [H4 [H5 H6]]]].
+        * apply NoDup_app_snoc; assumption.
+        * intros z Hz. apply in_app_iff in Hz. destruct Hz as [Hz | [Hz | []]]; [apply Hs; exact Hz | subst; exact Hv].
+        * intros z Hz. rewrite !union_names_In in Hz. destruct Hz as [[Hz | Hz] | Hz].
+          -- apply Hn. exact Hz.
+          -- apply (Hcl v z). left. exact Hz.
+          -- apply (Hcl v z). right. exact Hz.
+        * rewrite app_length in H5, H6. cbn [length] in H5, H6. repeat split; auto; try lia.
+  Qed.
+
+  Lemma plain_loop_total : forall (g : gstate) fuel seen ret next,
+    wstep_closed g -> NoDup seen -> incl seen (g_nodes g) -> incl next (g_nodes g) ->
+    length (g_nodes g) - length seen + 2 <= fuel ->
+    exists l, plain_loop teqb fuel g seen ret next = Ok l.
+  Proof.
+    intros g. induction fuel as [ | f IH ]; intros seen ret next Hcl Hnd Hs Hn Hf; [lia | ].
+    destruct next as [ | n0 nt ]; [exists ret; reflexivity | ].
+    cbn [plain_loop].
+    destruct (plain_level teqb g (n0 :: nt) seen ret []) as [[s' r'] n'] eqn:Hl.
+    destruct (plain_level_total g _ _ _ _ _ _ _ Hcl Hl Hn Hnd Hs (incl_nil_l _)) as [H2 [H3 [H4 [H5 H6]]]].
+    destruct (Nat.eq_dec (length s') (length seen)) as [Heq | Hne].
+    - rewrite (H6 Heq). exists r'. destruct f; reflexivity.
+    - apply IH; try assumption. pose proof (NoDup_incl_length H2 H3). lia.
+  Qed.
+
+  Theorem plain_bfs_total : forall (g : gstate) x,
+    wstep_closed g -> In x (g_nodes g) -> exists l, plain_bfs teqb g x = Ok l.
+  Proof.
+    intros g x Hcl Hx. unfold plain_bfs. apply plain_loop_total.
+    - exact Hcl.
+    - constructor.
+    - intros z [].
+    - intros z [Hz | []]. subst. exact Hx.
+    - unfold g_nodes, get_all_node_names. rewrite map_length. cbn [length]. lia.
+  Qed.
+
+  (* weakly_connected_components returns on every directed graph state passing the test *)
+  Theorem weakly_connected_components_total : forall (g : gstate),
+    directed (sp g) = true -> wstep_ok_b teqb g = true ->
+    exists cs, weakly_connected_components teqb g = Ok cs.
+  Proof.
+    intros g Hd Hok. destruct (wstep_ok_sound g Hok) as [_ Hcl0].
+    assert (Hcl : wstep_closed g).
+    { intros u v Huv. unfold wstep_ok_b in Hok. apply andb_true_iff in Hok. destruct Hok as [Hs Hp].
+      rewrite forallb_forall in Hs, Hp. destruct Huv as [Huv | Huv].
+      - destruct (lookup_In_row _ _ _ Huv) as [row [Hin Hv]]. specialize (Hs _ Hin).
+        rewrite forallb_forall in Hs. specialize (Hs v Hv). apply andb_true_iff in Hs.
+        apply (memb_In teqb teqb_spec). tauto.
+      - destruct (lookup_In_row _ _ _ Huv) as [row [Hin Hv]]. specialize (Hp _ Hin).
+        rewrite forallb_forall in Hp. specialize (Hp v Hv). apply andb_true_iff in Hp.
+        apply (memb_In teqb teqb_spec). tauto. }
+    unfold weakly_connected_components, ensure_directed. rewrite Hd. cbn [bind].
+    assert (G : forall names seen acc, incl names (g_nodes g) -> exists cs, wcc_loop teqb g names seen acc = Ok cs).
+    { induction names as [ | v t IH ]; intros seen acc Hin; cbn [wcc_loop]; [eexists; reflexivity | ].
+      assert (Ht : incl t (g_nodes g)) by (intros z Hz; apply Hin; cbn; tauto).
+      destruct (mem_name teqb v seen); [apply IH; exact Ht | ].
+      destruct (plain_bfs_total g v Hcl (Hin v (or_introl eq_refl))) as [l Hl]. rewrite Hl. cbn [bind].
+      apply IH. exact Ht. }
+    apply G. apply incl_refl.
+  Qed.
+
+  (* connected_components returns on every undirected graph state passing the test *)
+  Theorem connected_components_total : forall (g : gstate),
+    directed (sp g) = false -> step_total_b teqb g = true ->
+    exists cs, connected_components teqb g = Ok cs.
+  Proof.
+    intros g Hd Hok. pose proof (step_total_sound g Hok) as Htot.
+    unfold connected_components, ensure_undirected. rewrite Hd. cbn [bind].
+    assert (G : forall names seen acc, incl names (g_nodes g) -> exists cs, cc_loop teqb g names seen acc = Ok cs).
+    { induction names as [ | v t IH ]; intros seen acc Hin; cbn [cc_loop]; [eexists; reflexivity | ].
+      assert (Ht : incl t (g_nodes g)) by (intros z Hz; apply Hin; cbn; tauto).
+      destruct (mem_name teqb v seen); [apply IH; exact Ht | ].
+      destruct (bfs_total g v Htot (Hin v (or_introl eq_refl))) as [l Hl]. rewrite Hl. cbn [bind].
+      apply IH. exact Ht. }
+    apply G. apply incl_refl.
+  Qed.
 End ComponentsOk.
